@@ -10,6 +10,7 @@ import (
 	"os/exec"
 	"path/filepath"
 	"strings"
+	"time"
 
 	"github.com/gardenbed/charm/ui"
 
@@ -270,6 +271,9 @@ func (b *Batch) Vet() error {
 	return nil
 }
 
+// ErrTimeout reports that the driver produced no result within its (generous) time limit.
+var ErrTimeout = fmt.Errorf("the driver linked with the emitted packages did not finish within its time limit")
+
 // Run sends the jobs to the driver and returns one raw JSON answer per job.
 func Run(bin string, jobs []Job) ([]json.RawMessage, error) {
 	var in bytes.Buffer
@@ -283,8 +287,21 @@ func Run(bin string, jobs []Job) ([]json.RawMessage, error) {
 	cmd.Stdin = &in
 	var out, errb bytes.Buffer
 	cmd.Stdout, cmd.Stderr = &out, &errb
-	if err := cmd.Run(); err != nil {
-		return nil, fmt.Errorf("driver: %v\n%s", err, errb.String())
+	if err := cmd.Start(); err != nil {
+		return nil, err
+	}
+	done := make(chan error, 1)
+	go func() { done <- cmd.Wait() }()
+	limit := time.Duration(20+len(jobs)/4) * time.Second
+	select {
+	case err := <-done:
+		if err != nil {
+			return nil, fmt.Errorf("driver: %v\n%s", err, errb.String())
+		}
+	case <-time.After(limit):
+		_ = cmd.Process.Kill()
+		<-done
+		return nil, ErrTimeout
 	}
 	var res []json.RawMessage
 	dec := json.NewDecoder(&out)
